@@ -52,7 +52,8 @@ def case_strategy(draw):
     hist = [ops.gen_new(src, info)]
     if src.chance(1, 5):
         wd["post_copy"] = "counting"  # M.__post_copy__ assigns an (unmanaged) attribute on every copy, as in the documentation
-    twin_copy = mode in ("self", "parent") and src.chance(1, 6)
+    dnc_class = mode == "self" and src.chance(1, 8)  # frozen=True together with do_not_copy=True (class level)
+    twin_copy = mode in ("self", "parent") and src.chance(1, 6) and not dnc_class
     if twin_copy:
         next(c for c in wd["classes"] if c["name"] == "M")["post_init_deepcopy"] = True
     for _ in range(src.choice(13)):
@@ -62,7 +63,10 @@ def case_strategy(draw):
             hist.append({"t": "nested", "path": [["attr", "twin"]], "op": sub})
             continue
         hist.append(ops.gen_op(src, info, inplace=None, bad_rate=(1, 6), allow=("scalar", "element", "top", "deepcopy", "unmanaged") + (("nested",) if mode == "child" else ())))
-    return {"world": wd, "mode": mode, "ops": hist}
+    case = {"world": wd, "mode": mode, "ops": hist}
+    if dnc_class:
+        case["dnc_class"] = True
+    return case
 
 
 def freeze(wd, mode, on):
@@ -98,7 +102,12 @@ def run_case(ctx, case):
     from spec_classes.errors import FrozenInstanceError
 
     mode = case["mode"]
-    wf = grammar.build_world(freeze(case["world"], mode, True))
+    wdf = freeze(case["world"], mode, True)
+    if case.get("dnc_class"):
+        # a class that may neither be copied nor be changed: a helper that would change state can only refuse (or hand back a real
+        # copy). The twin is the ordinary class (not frozen, copied as usual): it says what the state after the call would be.
+        next(c for c in wdf["classes"] if c["name"] == "M")["opts"]["do_not_copy"] = True
+    wf = grammar.build_world(wdf)
     wn = grammar.build_world(freeze(case["world"], mode, False))
     wf.expected_frozen = {"U", "N"} if mode == "child" else ({"M", "Q", "R"} | ({"P"} if mode == "parent" else set()))
     hist = case["ops"]
@@ -132,6 +141,8 @@ def run_case(ctx, case):
                 snaps.append(Snapshot(x))
 
     register(cf)
+    # (class-level do_not_copy is not inherited by decorated subclasses - documented: "we always reset this" - only by plain ones)
+    dnc_effective = bool(case.get("dnc_class")) and case["world"]["instance_class"] in ("M", "Q")
     receiver_frozen = type(cf).__name__ in wf.expected_frozen
     saw_copy_change = saw_inplace = False
     for i, op in enumerate(hist[1:], 1):
@@ -180,6 +191,37 @@ def run_case(ctx, case):
             before_n = Snapshot(cn).structure()
             of, vf_ = ops.execute(wf, cf, op)
             on, vn = ops.execute(wn, cn, op)
+            if dnc_effective and receiver_frozen and of == "raise" and on == "raise" and isinstance(vf_, FrozenInstanceError):
+                # both sides refuse (the frozen guard may come before the twin's own reason, e.g. an ill-typed value)
+                ctx.count("dnc_frozen:both_refuse")
+                continue
+            if dnc_effective and receiver_frozen and op["t"] == "deepcopy":
+                if of != "ok" or vf_ is not cf:
+                    ctx.fail("deepcopy|dnc_not_identity", case, f"step {i}: deepcopy of a do_not_copy=True instance must be the instance itself (got {of} {vf_!r})")
+                    return
+                continue
+            if dnc_effective and receiver_frozen and on == "ok" and hasattr(vn, "__spec_class__"):
+                # (deepcopy of a do_not_copy=True instance is the instance itself, by documented design)
+                # (the tally kept by a counting __post_copy__ hook is not a change the call asked for)
+                def no_tally(st):
+                    return (st[0], [kv for kv in st[1] if kv[0] != "copy_count"]) if isinstance(st, tuple) and len(st) == 2 and isinstance(st[1], list) else st
+
+                would_change = no_tally(Snapshot(vn).structure()) != no_tally(Snapshot(cn).structure())
+                if of == "raise" and isinstance(vf_, FrozenInstanceError) and would_change:
+                    ctx.count("dnc_frozen:refused")
+                elif of == "ok" and vf_ is cf and would_change:
+                    # (the snapshot check below reports the change itself; this names the cause)
+                    ctx.fail(f"{route}|dnc_frozen_returned_receiver", case, f"step {i} {op} on a frozen do_not_copy=True instance returned the receiver although the call changes state")
+                    return
+                elif of == "raise" and would_change:
+                    ctx.fail(f"{route}|dnc_frozen_wrong_exception:{type(vf_).__name__}", case, f"step {i} {op}: {vf_!r}")
+                    return
+                # the frozen side stays where it is; the twin does too
+                for obj, s_ in zip(frozen_live, snaps):
+                    if s_.identity_form() != Snapshot(obj).identity_form():
+                        ctx.fail(f"{route}|frozen_instance_changed", case, f"step {i} {op} changed a frozen {type(obj).__name__} instance: {diff(s_, obj)}")
+                        return
+                continue
             if not _same_outcome(ctx, case, i, op, route, of, vf_, on, vn, FrozenInstanceError, allow_frozen=False):
                 return
             if of == "ok" and hasattr(vf_, "__spec_class__") and isinstance(vf_, type(cf)):
